@@ -12,7 +12,7 @@ import zipfile
 from lxml import etree
 
 ROOT = os.path.dirname(os.path.dirname(os.path.dirname(os.path.abspath(__file__))))
-REPO = os.environ.get("VERIF_REPO", "/repo")
+REPO = (os.environ.get("VERIF_REPO") or "/repo")
 SCHEMAS = os.path.join(ROOT, "schemas")
 XSD_SRC = os.path.join(REPO, "spec", "ISO-IEC-29500-2", "opc-xsd", "opc-coreProperties.xsd")
 
